@@ -115,13 +115,15 @@ def is_bad(kind):
 
 def mk_test(name, kind, layer=None, level=None, exc=0, out=None, count=None, body=None):
     """A unittest.TestCase with one runTest whose outcome is `kind`.
-    out: optional callable(name) run at the start of the body (writes tokens).
+    out: optional callable(name) run at the start of setUp (writes tokens).
     """
     E = EXC[exc]
 
     class T(unittest.TestCase):
         def setUp(self):
             ev('setUp', name)
+            if out is not None:
+                out(name)
             if kind == SKIP_SETUP:
                 self.skipTest('skip in setUp')
             if kind == SETUP_ERR:
@@ -135,8 +137,6 @@ def mk_test(name, kind, layer=None, level=None, exc=0, out=None, count=None, bod
 
         def runTest(self):
             ev('test', name)
-            if out is not None:
-                out(name)
             if body is not None:
                 body()
             if kind == FAIL:
@@ -199,3 +199,30 @@ def mk_test(name, kind, layer=None, level=None, exc=0, out=None, count=None, bod
 
 def runs_body(kind):
     return kind not in (SKIP_DECO, SKIP_SETUP, SETUP_ERR)
+
+
+# CrossHair quirk: str.format inside unittest's _SubTest.__str__ may yield a
+# lazily-symbolic str; "'%s' % subtest" then fails natively with "__str__
+# returned non-string".  Realise the (always concrete) text; a no-op natively.
+def _install_subtest_str_shim():
+    import unittest.case as UC
+    if getattr(UC._SubTest, '_verif_shim', False):
+        return
+    orig = UC._SubTest.__str__
+
+    def __str__(self):
+        s = orig(self)
+        try:          # type() lies about symbolic strings under tracing: always realise
+            from crosshair.core import realize
+            from crosshair.tracers import is_tracing
+            if is_tracing():
+                s = realize(s)
+        except ImportError:
+            pass
+        return s
+    UC._SubTest.__str__ = __str__
+    UC._SubTest._verif_shim = True
+    UC._SubTest.__ch_deep_realize__ = lambda self, memo: self
+
+
+_install_subtest_str_shim()
